@@ -965,7 +965,7 @@ impl Property for C14 {
     fn runs(&self, tier: Tier) -> usize {
         match tier {
             Tier::Quick => 12_000,
-            Tier::Thorough => 1_000_000,
+            Tier::Thorough => 2_500_000,
         }
     }
 
